@@ -227,6 +227,34 @@ def own_iterable_reads(tree):
     return out
 
 
+def previous_trip_walrus_reads(tree):
+    """{position of a read: set of positions of walrus targets} - the read stands inside a comprehension (not in its first
+    iterable) BEFORE a walrus of the same comprehension that binds the same name (a later condition, the element): from the second
+    trip on it reads what the previous trip bound, the same loop-carried visibility as `own_iterable_reads`"""
+    out = {}
+    for node in ast.walk(tree):
+        if isinstance(node, (ast.ListComp, ast.SetComp, ast.DictComp, ast.GeneratorExp)):
+            parts = []
+            for j, g in enumerate(node.generators):
+                parts += ([g.iter] if j else []) + list(g.ifs)
+            parts += [getattr(node, 'elt', None), getattr(node, 'key', None), getattr(node, 'value', None)]
+            parts = [p_ for p_ in parts if p_ is not None]
+            walrus = {}
+            for part in parts:
+                for n in ast.walk(part):
+                    if isinstance(n, ast.NamedExpr):
+                        walrus.setdefault(n.target.id, set()).add((n.target.lineno, n.target.col_offset))
+            if not walrus:
+                continue
+            for part in parts:
+                for n in ast.walk(part):
+                    if isinstance(n, ast.Name) and isinstance(n.ctx, ast.Load) and n.id in walrus:
+                        later = {w for w in walrus[n.id] if w > (n.lineno, n.col_offset)}
+                        if later:
+                            out.setdefault((n.lineno, n.col_offset), set()).update(later)
+    return out
+
+
 def star_before_keyword_walrus(tree):
     """{position of a read inside a *args argument: names} where a keyword argument written BEFORE it in the same call
     contains a walrus binding that name: CPython evaluates *args before the keyword values."""
